@@ -82,18 +82,23 @@ theorem par_eof_mode (cfg : Cfg) : ∀ (f : Nat) (st : State) (p : Bytes), st.is
             unfold parBody; rw [hdec]
           rw [h1, h2]; simp
         | chunk size sig off =>
+          by_cases hsig : sig = []
+          · subst hsig
+            left
+            rw [parBody_nosig cfg _ stc st2 p size off hh, parBody_nosig cfg _ (setE true stc) (setE true st2) p size off hdec]
+            simp
           by_cases hz : size = 0
           · subst hz
             left
-            have h1 : parBody cfg (parseAndRemove cfg f) stc p = finalChunk cfg { st2 with parsedSig := sig } := by
-              unfold parBody; rw [hh]; rfl
+            have h1 : parBody cfg (parseAndRemove cfg f) stc p = finalChunk cfg { st2 with parsedSig := sig } :=
+              parBody_final cfg _ stc st2 p sig off hh hsig
             have h2 : parBody cfg (parseAndRemove cfg f) (setE true stc) p =
-                finalChunk cfg (setE true { st2 with parsedSig := sig }) := by
-              unfold parBody; rw [hdec]; rfl
+                finalChunk cfg (setE true { st2 with parsedSig := sig }) :=
+              parBody_final cfg _ (setE true stc) (setE true st2) p sig off hdec hsig
             rw [h1, h2]
             exact ⟨finalChunk_out_setE cfg true _, fun h => absurd h (finalChunk_not_nil cfg _)⟩
-          · rw [parBody_chunk cfg _ stc st2 p sig size off hh hz,
-              parBody_chunk cfg _ (setE true stc) (setE true st2) p sig size off hdec hz]
+          · rw [parBody_chunk cfg _ stc st2 p sig size off hh hsig hz,
+              parBody_chunk cfg _ (setE true stc) (setE true st2) p sig size off hdec hsig hz]
             have e1 : ({ setE true st2 with parsedSig := sig } : State) = setE true { st2 with parsedSig := sig } := rfl
             rw [e1]
             generalize hsL : ({ st2 with parsedSig := sig } : State) = sL
